@@ -341,6 +341,17 @@ def classify_call(P, fn, s):
         if ex is not None and n is not None:
             room = (ex[0] - ex[1]) * ex[2]
             return ('5 mem*(array, ., n<=sizeof array)', 'n=%d size=%d' % (n, room)) if n <= room else (None, 'n=%d exceeds %d' % (n, room))
+        # idiom 17: mem*(array + off, ., sizeof array - off): fill / copy "to the end of the array"
+        if isinstance(d, dict) and d.get('k') == 'bin' and d.get('op') == '+' and is_var(d.get('r')) and extent_of(fn, d['l']) is not None \
+                and isinstance(a[2], dict) and a[2].get('k') == 'bin' and a[2].get('op') == '-' and is_var(a[2].get('r'), d['r']['name']) and const_of(a[2]['l']) is not None:
+            b0 = extent_of(fn, d['l'])
+            total = (b0[0] - b0[1]) * b0[2]
+            from . import numeric
+            an = _numeric(fn)
+            lo, hi = an.range_of(d['r'], an.at(s))
+            if const_of(a[2]['l']) <= total and b0[2] == 1 and lo is not None and lo >= 0 and hi != numeric.INF and hi <= const_of(a[2]['l']):
+                return '17 mem*(array + off, ., sizeof array - off) with 0 <= off <= sizeof array', 'off in [%s,%s] size=%d' % (lo, hi, total)
+            return None, '%s(%s + %s, ., %s): offset range [%s, %s] is not inside the array of %d bytes' % (name, sx(d['l']), sx(d['r']), sx(a[2]), lo, hi, total)
         if ex is not None and is_var(a[2]):
             room = (ex[0] - ex[1]) * ex[2]
             ub = offset_upper_bound(P, fn, s, a[2]['name'], ex[0])
@@ -354,6 +365,9 @@ def classify_call(P, fn, s):
                         return rv2 is not None and root_var(d) is not None and rv2['name'] == root_var(d)['name']
                     if ev2['k'] == 'store' and ev2.get('op') == '=' and const_of(ev2.get('rhs')) == 0 and (ev2['lhs'] or {}).get('k') == 'idx' and same(ev2['lhs']['base'], d):
                         return True
+                    if ev2['k'] == 'call' and ev2.get('callee') == 'memset' and len(ev2['args']) == 3 and const_of(ev2['args'][1]) == 0:
+                        rv3 = root_var(ev2['args'][0])
+                        return rv3 is not None and root_var(d) is not None and rv3['name'] == root_var(d)['name']
                     return False
                 if name == 'memset' or d.get('elsz', 1) != 1 or fn.path_avoiding(s, terminates) is None:
                     return '16 mem*(array, ., n) with n bounded by the array size, text terminated afterwards', 'n<=%d size=%d' % (ub, room)
